@@ -203,6 +203,14 @@ def build_mut(mr):
         return m_dapp
     if k == "svar":
         return _SHARED["var"]
+    if k == "sset":
+        import lena.meta
+        return lena.meta.SetContext(mr[1], copy.deepcopy(mr[2]))
+    if k == "ucfs":
+        import lena.core
+        import lena.meta
+        # (UpdateContextFromStatic takes (data, context) pairs: the value gets a context first)
+        return lena.core.Sequence(m_cset("u"), lena.meta.UpdateContextFromStatic())
     if k == "dinc":
         return m_dinc
     if k == "cset":
@@ -234,6 +242,10 @@ def rand_mut(rng, allow_count=True):
                     "svar"] + (["count"] if allow_count else []))
     if k == "cset":
         return ["cset", rng.choice(["a", "b", "i"])]
+    if k == "dapp" and rng.random() < 0.35:
+        # elements of the static context: what a branch sets is seen by that branch only
+        return rng.choice([["sset", "stat.k", rng.randint(0, 3)], ["sset", "output.prefix", "p_"],
+                           ["ucfs"], ["ucfs"], ["sset", "outer.o", 5]])
     if k == "var":
         return ["var", rng.choice(["x", "y"]), rng.choice(["dbl0", "idg", "wrap"]),
                 rng.choice(["", "t1", "t2"])]
@@ -301,6 +313,14 @@ def _rand_branch(rng, btype, stops=False):
         # Count in the pre part of a fill sequence works through fill_into
     if btype == "fr":
         b["fr"] = [rng.randint(1, 3), rng.random() < 0.5]
+    # UpdateContextFromStatic is a run element: it cannot stand before a fill element
+    if btype in ("fc", "fr"):
+        moved = [m for m in b["pre"] if m[0] == "ucfs"]
+        b["pre"] = [m for m in b["pre"] if m[0] != "ucfs"]
+        b["post"] = moved + b["post"]
+    elif any(m[0] == "count" for m in b["pre"] + b["post"]):
+        b["pre"] = [m for m in b["pre"] if m[0] != "ucfs"]
+        b["post"] = [m for m in b["post"] if m[0] != "ucfs"]
     if stops and rng.random() < 0.45:
         # a branch that stops reading after n values - after the mutators before it have
         # already changed (their copy of) the values of the current block in place
@@ -704,6 +724,16 @@ def drive(kind, made, flow, sched):
 
 
 def make_split(kind, branches, idxs, bufsize):
+    made = _make_split(kind, branches, idxs, bufsize)
+    if any(m[0] in ("sset", "ucfs") for j in idxs
+           for m in branches[j].get("pre", []) + branches[j].get("post", [])) \
+            and hasattr(made, "_set_context"):
+        # what an enclosing sequence with SetContext("outer.o", 1), SetContext("z", [1]) does
+        made._set_context({"outer": {"o": 1}, "z": [1]})
+    return made
+
+
+def _make_split(kind, branches, idxs, bufsize):
     import lena.core
     import lena.flow
     if kind == "zip-requests":
@@ -1028,3 +1058,5 @@ RULE += (' Branches of one program also share one typed Variable object (as an e
          'argument variable of a SplitIntoBins accumulator in a fill/compute branch).')
 RULE += (' Data are also instances of subclasses of float / str that carry a mutable attribute '
          '(changed in place by the data mutators).')
+RULE += (' Branches also hold SetContext and UpdateContextFromStatic elements, and the Split then '
+         'receives a static context from outside: what a branch sets is seen by that branch only.')
